@@ -189,7 +189,7 @@ PROPS = {
         "rule": "chunk lists with any of {sRGB, iCCP(recognised/other/zero-id/short/undecodable/unknown-method), both, neither, acTL} x strip policies x recoding x grayscale switch; e2e: gray-valued RGB(A) and other images",
     },
     "C04": {
-        "lean": ["OxiModel.Props.C04"],
+        "lean": ["OxiModel.Props.C04", "OxiModel.Props.C04Files"],
         "needs_binary": True,
         "streams": [{"name": "corr-decision", "quick": 3000, "thorough": 50000}],
         "oracles": [{"name": "e2e", "args": ["C04"], "quick": 3000, "thorough": 40000},
